@@ -626,3 +626,175 @@ Proof.
     rewrite emu_feed_app, E1. cbn [T.tbind].
     unfold interp. cbn [fold_left]. apply (IH t1 (interp1 tw r k) W1 M1 R1 Hrest).
 Qed.
+
+(* ------------------------------------------------------------------ whole frames and histories *)
+From Vx Require Import proofs.RenderDelta proofs.RenderRow proofs.RenderFrame proofs.RenderHistory.
+
+Lemma view_cells_length cp ns : forall skip hd, length (view_cells cp ns skip hd) = length ns.
+Proof. induction ns as [|n ns IH]; intros skip hd; cbn [view_cells]; [reflexivity|]. case_if; cbn; now rewrite IH. Qed.
+
+Lemma row_shows_pointwise : forall exp obs,
+  length exp = length obs ->
+  (forall i d c, zget exp i = Some d -> zget obs i = Some c -> ecell_shows d c = true) ->
+  row_shows exp obs = true.
+Proof.
+  induction exp as [|d exp IH]; intros [|c obs] Hl H; try discriminate; [reflexivity|].
+  cbn [row_shows]. rewrite (H 0 d c eq_refl eq_refl). cbn [andb]. apply IH; [cbn in Hl; lia|].
+  intros i d' c' H1 H2. apply (H (i + 1)).
+  - pose proof (zget_some_range _ _ _ H1). rewrite zget_cons_S by lia. now replace (i + 1 - 1) with i by lia.
+  - pose proof (zget_some_range _ _ _ H2). rewrite zget_cons_S by lia. now replace (i + 1 - 1) with i by lia.
+Qed.
+
+Lemma grid_shows_pointwise cp : forall next obs,
+  length next = length obs ->
+  (forall k ns row, zget next k = Some ns -> zget obs k = Some row -> row_shows (view_row cp ns) row = true) ->
+  grid_shows cp next obs = true.
+Proof.
+  induction next as [|ns next IH]; intros [|row obs] Hl H; try discriminate; [reflexivity|].
+  cbn [grid_shows]. rewrite (H 0 ns row eq_refl eq_refl). cbn [andb]. apply IH; [cbn in Hl; lia|].
+  intros k ns' row' H1 H2. apply (H (k + 1)).
+  - pose proof (zget_some_range _ _ _ H1). rewrite zget_cons_S by lia. now replace (k + 1 - 1) with k by lia.
+  - pose proof (zget_some_range _ _ _ H2). rewrite zget_cons_S by lia. now replace (k + 1 - 1) with k by lia.
+Qed.
+
+(* the emulator holds the view: what the differential run evaluates on the real emulator *)
+Lemma emu_shows_view cp e w h s t r :
+  TP.WFs0 e w h t -> emu_rel t r -> dims_ok s r -> shows_next cp s r ->
+  grid_shows cp (v_next s) (grid_of t) = true.
+Proof.
+  intros HW HR [D1 [_ [D3 _]]] Hs.
+  destruct (TP.WFs_active _ _ _ _ HW) as [Hlen HF].
+  pose proof HR as [A1 A2 A3 _ _ _ _ _].
+  pose proof (TP.WFs_height e w h t HW) as Hh. pose proof (TP.WFs_width e w h t HW) as Hw.
+  apply grid_shows_pointwise.
+  - unfold grid_of. rewrite map_length. unfold zlen, T.height in *. unfold T.trow, T.grid in *. lia.
+  - intros k ns row Hk Hrow. unfold grid_of in Hrow. rewrite TR.zget_map in Hrow.
+    unfold T.trow, T.grid in *.
+    destruct (@zget (list T.tcell) (T.active t) k) as [line|] eqn:Gk; [|cbn in Hrow; discriminate]. cbn in Hrow. inversion Hrow; subst row. clear Hrow.
+    assert (Hns : zlen ns = tm_cols r) by (apply D3; eapply zget_In; eauto).
+    assert (Hline : zlen line = w).
+    { assert (TP.row_ok w line) as [Hl _]; [|exact Hl]. rewrite Forall_forall in HF. apply HF. eapply zget_In; eauto. }
+    apply row_shows_pointwise.
+    + unfold view_row. rewrite view_cells_length, map_length. unfold zlen in *. lia.
+    + intros i d c Hd Hc. rewrite TR.zget_map in Hc.
+      destruct (zget line i) as [c0|] eqn:Gi; [|cbn in Hc; discriminate]. cbn in Hc. inversion Hc; subst c. clear Hc.
+      pose proof (zget_some_range _ _ _ Gi) as Hi.
+      rewrite (Hs k ns Hk i ltac:(lia)) in Hd. inversion Hd; subst d. clear Hd.
+      assert (Hrel : cell_rel (tm_grid r k i) c0) by (apply A3; unfold gget; unfold T.trow, T.grid in *; rewrite Gk; exact Gi).
+      pose proof (Hs k ns Hk i ltac:(lia)) as Hv.
+      destruct (tm_grid r k i) as [g0 w0 off0 p0 l0|] eqn:Ed.
+      * cbn [cell_rel] in Hrel. destruct (off0 =? 0) eqn:Eo.
+        -- apply Hrel. lia.
+        -- unfold ecell_shows. rewrite Eo. reflexivity.
+      * exfalso. unfold view_row in Hv.
+        assert (Hnp : forall ns skip hd j, zget (view_cells cp ns skip hd) j <> Some DPoison).
+        { clear. induction ns as [|n ns IH]; intros skip hd j; cbn [view_cells].
+          - destruct (Z_lt_dec j 0); [rewrite TR.zget_neg by lia; discriminate|]. rewrite TR.zget_beyond by (rewrite zlen_nil; lia). discriminate.
+          - destruct (0 <? skip); (destruct (Z_lt_dec j 0); [rewrite TR.zget_neg by lia; discriminate|];
+              destruct (Z.eq_dec j 0); [subst; cbn; unfold head_disp; discriminate|]; rewrite zget_cons_S by lia; apply IH). }
+        exact (Hnp _ _ _ _ Hv).
+Qed.
+
+Lemma emu_shows_cursor t r c :
+  1 <= tm_cols r -> emu_rel t r -> cursor_rel c r ->
+  cursor_shows (tm_rows r) (tm_cols r) c (ecursor_of t) = true.
+Proof.
+  intros Hc1 HR [Hv Hat]. pose proof HR as [_ _ _ A4 A5 _ A7 A8].
+  unfold cursor_shows, ecursor_of. rewrite A7, Hv.
+  destruct (cu_vis c) eqn:Ev; [|reflexivity].
+  destruct (Hat Ev) as [Hr [Hcl Hsh]].
+  rewrite A4, A8, Hr, Hsh, !Z.eqb_refl. cbn [andb].
+  destruct A5 as [(B1 & B2 & _)|(B1 & _)].
+  - rewrite B2, Hcl, Z.eqb_refl. reflexivity.
+  - exfalso. unfold clampz in Hcl. lia.
+Qed.
+
+(* the emulator along a history, with the reference terminal as a ghost: after every Render /
+   Refresh the executable predicate of EmuSpec.v holds of the emulator's grid and cursor.
+   [toks_ok] is the side condition of the simulation (numbers written with digits, glyphs
+   fit before the right edge); after a size change the emulator may be in any well-formed
+   state related to a reference terminal that kept what a resize cannot disturb *)
+Fixpoint emu_history_ok (tw measure : list Z -> Z) (s : vstate) (r : term) (t : T.term) (fs : list frame) : Prop :=
+  match fs with
+  | [] => True
+  | (ops, e) :: rest =>
+      let s1 := fold_left apply_op ops s in
+      match e with
+      | FResize rows cols =>
+          1 <= rows -> 1 <= cols ->
+          forall r2 t2 e2, resized r r2 rows cols ->
+            TP.WFs0 e2 cols rows t2 -> vaxis_modes t2 = true -> emu_rel t2 r2 ->
+            emu_history_ok tw measure (do_resize s1 rows cols) r2 t2 rest
+      | _ =>
+          content_ok tw measure term_caps s1 ->
+          let '(s', o) := do_frame s ops e in
+          toks_ok tw r o ->
+          exists t', emu_toks tw t o = T.TOk t' /\
+            grid_shows term_caps (v_next s1) (grid_of t') = true /\
+            cursor_shows (tm_rows r) (tm_cols r) (v_cnext s1) (ecursor_of t') = true /\
+            emu_history_ok tw measure s' (interp tw r o) t' rest
+      end
+  end.
+
+Theorem emu_history_correct tw measure : forall fs s r t e w h,
+  v_caps s = term_caps -> settled s r -> (v_refresh s = false -> in_sync measure term_caps s r) ->
+  TP.WFs0 e w h t -> vaxis_modes t = true -> emu_rel t r ->
+  emu_history_ok tw measure s r t fs.
+Proof.
+  induction fs as [|[ops fe] rest IH]; intros s r t e w h Hcp Hs Hsy HW HM HR; cbn [emu_history_ok]; [exact I|].
+  cbv zeta. destruct (ops_keep ops s) as [A [B [Cc [D [E [F G]]]]]]. cbv zeta in *.
+  set (s1 := fold_left apply_op ops s) in *.
+  pose proof (ops_settled ops s r Hs) as Hs1. fold s1 in Hs1.
+  assert (Hsy1 : v_refresh s1 = false -> in_sync measure term_caps s1 r).
+  { intros Hr. rewrite D in Hr. exact (ops_in_sync measure term_caps ops s r (Hsy Hr)). }
+  assert (Hcp1 : v_caps s1 = term_caps) by congruence.
+  assert (Frame : forall s2, v_caps s2 = term_caps -> settled s2 r ->
+            (v_refresh s2 = false -> in_sync measure term_caps s2 r) -> v_next s2 = v_next s1 -> v_cnext s2 = v_cnext s1 ->
+            content_ok tw measure term_caps s2 ->
+            let '(s', o) := do_render s2 in
+            toks_ok tw r o ->
+            exists t', emu_toks tw t o = T.TOk t' /\
+              grid_shows term_caps (v_next s1) (grid_of t') = true /\
+              cursor_shows (tm_rows r) (tm_cols r) (v_cnext s1) (ecursor_of t') = true /\
+              emu_history_ok tw measure s' (interp tw r o) t' rest).
+  { intros s2 C2 S2 Y2 N2 CN2 Hok.
+    pose proof (render_correct tw measure term_caps s2 r C2 S2 Y2 Hok) as H.
+    destruct (do_render s2) as [s' o]. cbv zeta in H. intros Htok.
+    destruct H as [S' [Y' [R' [N' [C' [SN [CR SY]]]]]]].
+    destruct (emu_simulates_refterm_list tw e w h o t r HW HM HR Htok) as [t' [E' [W' [M' Rl']]]].
+    exists t'. split; [exact E'|].
+    assert (Hdims : tm_rows (interp tw r o) = tm_rows r /\ tm_cols (interp tw r o) = tm_cols r).
+    { destruct S' as [[D1 _] _]. destruct S2 as [[D1' _] _]. rewrite N' in D1.
+      destruct Rl' as [Q1 Q2 _ _ _ _ _ _]. destruct HR as [P1 P2 _ _ _ _ _ _].
+      rewrite <- Q1, <- Q2, <- P1, <- P2.
+      rewrite (TP.WFs_height e w h t' W'), (TP.WFs_width e w h t' W'), (TP.WFs_height e w h t HW), (TP.WFs_width e w h t HW).
+      split; reflexivity. }
+    destruct Hdims as [Hdr Hdc].
+    split.
+    { rewrite <- N2. apply (emu_shows_view term_caps e w h s2 t' (interp tw r o) W' Rl'); [|exact SN].
+      destruct S' as [[D1 [D2 [D3 D4]]] _]. rewrite N' in D1, D3.
+      split; [exact D1|]. split; [|split; [exact D3|]].
+      - destruct S2 as [[_ [L2 _]] _]. exact L2.
+      - destruct S2 as [[_ [_ [_ L4]]] _]. rewrite Hdc. exact L4. }
+    split.
+    { rewrite <- CN2, <- Hdr, <- Hdc. apply emu_shows_cursor; auto.
+      destruct S' as [_ [_ [Hc1 _]]]. exact Hc1. }
+    apply (IH s' (interp tw r o) t' e w h C' S' (fun _ => Y') W' M' Rl'). }
+  destruct fe as [| |rows cols].
+  - intros Hok. unfold do_frame. fold s1. apply (Frame s1); auto.
+  - intros Hok. unfold do_frame, do_refresh. fold s1.
+    apply (Frame (set_refresh s1)); auto. intros Hr; discriminate.
+  - intros Hr Hc r2 t2 e2 Hres W2 M2 R2. apply (IH _ r2 t2 e2 cols rows); auto.
+    + exact (resize_settled s1 r r2 rows cols Hr Hc Hs1 Hres).
+    + cbn. intros Hf; discriminate.
+Qed.
+
+(* the decidable side condition implies the one of the theorems *)
+Lemma toks_okb_ok tw : forall ks r, toks_okb tw r ks = true -> toks_ok tw r ks.
+Proof.
+  induction ks as [|k ks IH]; intros r H; cbn [toks_okb toks_ok] in *; [exact I|].
+  apply andb_prop in H; destruct H as [H H4]. apply andb_prop in H; destruct H as [H H3].
+  apply andb_prop in H; destruct H as [H1 H2].
+  split; [|now apply IH]. split; [exact H1|]. split; [exact H2|].
+  destruct k; cbn [fitsb fits] in *; try exact I; lia.
+Qed.
